@@ -101,6 +101,27 @@ Proof.
   unfold blake_fin_real, blake_step_real.
   destruct (fold_left _ blocks (iv, (0%N, 0%N))) as [c t']. cbn [fst snd]. reflexivity.
 Qed.
+(** more than (b): the record and the concrete model move in lock-step from EVERY state *)
+Definition blake_to_model (i : inst (H * (N * N))) : MB.hasher H :=
+  MB.Hasher H (fst (i_st i)) (i_buf i) (snd (i_st i)).
+
+Lemma blake_real_new_sim iv : blake_to_model (h_new (blake_real iv)) = MB.new H wb iv.
+Proof. reflexivity. Qed.
+
+Lemma blake_real_update_sim iv i d :
+  blake_to_model (h_update (blake_real iv) i d) = MB.update H put w wb (blake_to_model i) d.
+Proof.
+  destruct i as [[c t] b].
+  unfold h_update, blake_real, blake_to_model, MB.update.
+  cbn [h_size h_lazy h_init h_pre h_step h_fin i_st i_buf bb_input fst snd MB.compressor MB.buffer MB.t].
+  destruct (input_block b d) as [b1 blocks]. cbn [fst snd]. unfold blake_step_real.
+  destruct (fold_left _ blocks (c, t)) as [c' t']. reflexivity.
+Qed.
+
+Lemma blake_real_finalize_sim iv i :
+  h_finalize (blake_real iv) i
+  = match MB.finalize H put w wb isfull (blake_to_model i) with Some h => post h | None => [] end.
+Proof. reflexivity. Qed.
 End Real.
 
 (** * the four types *)
